@@ -203,7 +203,23 @@ def _scatter(a, perm):
     return out
 
 
-C02_REPRODUCERS = {'C02-assemble-scalar-advanced-index': repro_assemble_scalar_index}
+def repro_assemble_merge():
+    ev = _ev()
+    c = ev.constant
+    d = ev.Argument('d', (c(2),), int)
+    C = c(numpy.array([[1, 2], [3, 4]]))
+    x = ev._inflate(C, ev.InRange(d, c(4)), c(4), 0)
+    f = ev._inflate(ev._inflate(x, c(1), c(4), 0), c(2), c(3), 2)
+    av = dict(d=numpy.array([1, 3]))
+    r0 = ev.eval_once(f, _simplify=False, _optimize=False, arguments=av)
+    try:
+        r = ev.eval_once(f, arguments=av)
+    except Exception as e:
+        return True, f'inflate(inflate(Inflate(C, d, 4), 1, 4, 0), 2, 3, 2): {type(e).__name__}: {str(e)[:80]}'
+    return (not numpy.array_equal(r, r0)), 'optimised result ' + ('equals' if numpy.array_equal(r, r0) else 'differs from') + ' the raw evaluation'
+
+
+C02_REPRODUCERS = {'C02-assemble-scalar-advanced-index': repro_assemble_scalar_index, 'C02-assemble-merge-axis-count': repro_assemble_merge}
 
 
 # ---------------------------------------------------------------------------
